@@ -679,7 +679,7 @@ func genKD(d int, stock bool) func(g *vlib.G) {
 		L := ipow(sp.side, d)
 		stockReps := vlib.Pick(g, 2, 3)
 		if d == 4 {
-			stockReps = vlib.Pick(g, 1, 2)
+			stockReps = 1
 		}
 		group := fmt.Sprintf("kd-%s-d%d", map[bool]string{false: "shapes", true: "stock"}[stock], d)
 		for j := 0; j <= N; j++ {
@@ -755,7 +755,7 @@ func genKD(d int, stock bool) func(g *vlib.G) {
 					if d <= 2 {
 						tuples(L, m, emit)
 					} else {
-						multisets(L, m, func(ms []int) { orderings(ms, emit) })
+						multisets(L, m, func(ms []int) { orderings(ms, d < 4 || g.Thorough(), emit) })
 					}
 				}
 			})
